@@ -213,7 +213,8 @@ class Run:
         o.result = r
         if r.status in ("sat", "unsat"):
             for cs in self.cross_solvers:
-                c = smt.check(o.lines, o.asserts, cs, o.timeout, get_model=False)
+                # the second solver is an auxiliary cross-check: capped at 60 s per obligation
+                c = smt.check(o.lines, o.asserts, cs, min(o.timeout, 60), get_model=False)
                 o.cross[cs] = c.status
         return o
 
@@ -228,7 +229,7 @@ class Run:
             self._solve(o)
         if self.cross_solvers:
             for cs in self.cross_solvers:
-                cr = smt.check_batch([(o.lines, o.asserts) for o in chunk], cs, chunk[0].timeout)
+                cr = smt.check_batch([(o.lines, o.asserts) for o in chunk], cs, min(chunk[0].timeout, 60))
                 for o, r in zip(chunk, cr):
                     o.cross[cs] = r.status
         return chunk
@@ -319,6 +320,7 @@ class Run:
             return
         if getattr(o, "optional", False) and r.status in ("unknown", "timeout"):
             self.extra["optional_undecided"] = self.extra.get("optional_undecided", 0) + 1
+            self.extra.setdefault("optional_undecided_names", []).append(o.name)
             return
         self.inconclusive.append(f"{o.name}: solver answered {r.status} after {r.secs:.1f}s")
 
